@@ -139,8 +139,10 @@ PROPS['C05'] = {
         H('c05_distinct_messages_distinct_frames', covers=2, tier='thorough'),
     ] + FRAME_KANI_CONTRACTS}],
     'verus': [{'tmpl': 'frame.rs.tmpl', 'obligations': FRAME_VERUS_ENC + ['Frame::from_bytes', 'c01_wire_trip', 'c01_wire_trip_newline', 'lemma_roundtrip', 'lemma_roundtrip_nl',
-               'lemma_enc_chars', 'lemma_pairs', 'lemma_nibbles', 'lemma_digit', 'lemma_addr', 'lemma_dec_strip', 'lemma_shape_groups', 'lemma_group_names']}],
-    'tools': [{'kind': 'regexeq'}, {'kind': 'witness', 'domains': ['message'], 'bound': 'all 256 types x 256 first bytes x lengths {0,1,2,3,16,255} x 3 addresses; 5 addresses x every specific kind through the real wire codec'}],
+               'lemma_enc_chars', 'lemma_pairs', 'lemma_nibbles', 'lemma_digit', 'lemma_addr', 'lemma_dec_strip', 'lemma_shape_groups', 'lemma_group_names']},
+              # messages reach the wire through Frame::write and come back through Frame::read: their contracts (C15) carry the codec result to the stream level
+              {'tmpl': 'frame_io.rs.tmpl', 'obligations': ['Frame::write', 'Frame::read']}],
+    'tools': [{'kind': 'regexeq'}, {'kind': 'witness', 'domains': ['message', 'stream'], 'bound': 'stream: as C15; message: all 256 types x 256 first bytes x lengths {0,1,2,3,16,255} x 3 addresses; 5 addresses x every specific kind through the real wire codec'}],
     'functions': MSG_FNS + FRAME_FNS,
     'assumptions': [A_TOOLS, A_DEBUG, A_USIZE, A_COW, A_INTO, A_REGEX, A_CHUNKS, A_SPEC,
                     'composition: message -> frame -> wire -> frame -> message is the composition of the Kani identity Message::from(Frame::from(m)) == m (all specific messages) with the Verus contracts to_bytes == enc, from_bytes == dec and the lemma dec(enc(f)) == Ok(f); the wire leg is additionally executed as one obligation (c01_wire_trip / c01_wire_trip_newline: the real from_bytes applied to the real to_bytes returns Ok with the same address, type and data, for every frame); what is left unmechanised is only that Message::from gives equal messages on frames with equal address, type and data bytes (it reads nothing else: Frame has no other field)',
